@@ -92,7 +92,8 @@ def h_group(a, inst):
     return ot == want
 
 
-@harness(instances=lambda tier: [{"N": n, "idx": i} for n in range(0, (3 if tier == "quick" else 4) + 1) for i in (0, 1)],
+@harness(instances=lambda tier: [{"N": n, "idx": i, "ret": r} for n in range(0, (3 if tier == "quick" else 4) + 1) for i in (0, 1)
+                                 for r in ("bool", "int", "none") if not (n == 0 and r != "bool")],
          v=I(0, 3, n=lambda i: i["N"]), g=I(0, 2, n=lambda i: i["N"]), tg=I(0, 2), term=I(0, 2), p=I(0, 3), m=I(1, 2), timeout=(90, 900))
 def h_partition(a, inst):
     """each element goes to exactly one of the two outputs according to the predicate; both end with the source's terminal"""
@@ -102,14 +103,17 @@ def h_partition(a, inst):
     ts = times_from_gaps(a.g)
     tt = (ts[-1] if ts else 210) + a.tg
     src = sch.create_hot_observable(messages(xs, a.g, a.term, a.tg))
+    # the predicate answers with a bool, with an int (0 = no), or with None / a value: truthiness decides, as for filter
+    ret = inst.get("ret", "bool")
+    wrap = {"bool": lambda b: b, "int": lambda b: 1 if b else 0, "none": lambda b: "yes" if b else None}[ret]
     if inst["idx"]:
-        pred = lambda x, i: (x + i) % a.m == 0  # noqa: E731
+        pred = lambda x, i: wrap((x + i) % a.m == 0)  # noqa: E731
         yes, no = ops.partition_indexed(pred)(src)
-        truth = [pred(x, i) for i, x in enumerate(xs)]
+        truth = [bool(pred(x, i)) for i, x in enumerate(xs)]
     else:
-        pred = lambda x: x >= a.p  # noqa: E731
+        pred = lambda x: wrap(x >= a.p)  # noqa: E731
         yes, no = ops.partition(pred)(src)
-        truth = [pred(x) for x in xs]
+        truth = [bool(pred(x)) for x in xs]
     r1, r2 = sch.create_observer(), sch.create_observer()
     sch.schedule_absolute(200, lambda s, st: (yes.subscribe(r1, scheduler=s), no.subscribe(r2, scheduler=s)))
     sch.advance_to(260)
@@ -125,7 +129,7 @@ ENCODED = ["reactivex/operators/_groupbyuntil.py", "reactivex/operators/_groupby
            "reactivex/operators/_partition.py"]
 BOUNDS = {"quick": "N<=3 elements (N<=2 with expiring groups) with values in [0,3], key x % m (m in 1..3: one to three keys), element mapper 10+x, gaps in [0,3], "
                    "terminal none/completed/error; group durations that fire (by emitting or by completing empty) d in 1..3 ticks after "
-                   "the group was emitted, or never; partition with predicate x >= p and the indexed form",
+                   "the group was emitted, or never; partition with predicate x >= p and the indexed form, answering with a bool, an int or None / a value",
           "thorough": "N<=4"}
 ASSUMES = ["Tick/Span time stub", "an element arriving in the very instant in which its key's group expires still belongs to that group "
            "(the hot element was scheduled before the duration timer)"]
